@@ -205,7 +205,7 @@ def rule_load(chk, rid, runs):
 
 
 # ------------------------------------------------------------------ WORK typestate
-def rule_work(chk, rid, runs, skip_classes=()):
+def rule_work(chk, rid, runs, skip_classes=(), hold=True):
     chk.describe(rid, "working-storage typestate: Reverse only with adjoint data present, loads only into empty WORK, "
                       "adjoint data written only when none is held")
     for run_ in runs:
@@ -232,7 +232,7 @@ def rule_work(chk, rid, runs, skip_classes=()):
                 chk.decide(rid, cons, ok, f"working storage is {sorted(vals) if vals else '?'} when a checkpoint is loaded"
                            + ("" if ok is not False else ": it still holds unused restart data or adjoint dependencies")
                            + cfgs(run_), rel=run_.rel, node=rec.node)
-            elif rec.kind == "Forward" and rec.arg(4, "storage") == WORK and truth(st, rec.arg(3)) is True \
+            elif hold and rec.kind == "Forward" and rec.arg(4, "storage") == WORK and truth(st, rec.arg(3)) is True \
                     and run_.cname not in skip_classes:
                 ok = None if vals is None else (True if not (vals & {"A", "A*"}) else (False if vals <= {"A", "A*"} else None))
                 chk.decide(rid, cons, ok, f"working storage is {sorted(vals) if vals else '?'} when adjoint dependencies are written to it"
